@@ -241,3 +241,415 @@ Lemma row_entries_length B sp : forall os es i0, List.length os = List.length es
 Proof.
   induction os as [|o os IH]; intros [|e es] i0 H; cbn in *; try lia. f_equal. apply IH. lia.
 Qed.
+
+(* ------------------------------------------------------------------------------------------ *)
+(** * verdict on the retrieval for a list of position indices *)
+
+(** the region of position index i: the index must exist *)
+Definition mtag_region (incl : bool) (mt : mtag) (a : darray) (i : Z) (off cnt : list Z) : Prop :=
+  0 <= i < mtag_npos mt /\ region_is incl (a_dims a) (a_shape a) (mtag_wants mt a i) off cnt.
+
+(** all views or nothing: the views are the regions of the indices, in order; an error is out-of-bounds
+    and some index of the list has no region (not a position, empty, or outside the data) *)
+Definition list_verdict (incl : bool) (mt : mtag) (a : darray) (idxs : list Z) (r : res (list (list Z * list Z))) : Prop :=
+  match r with
+  | Ok vs => Forall2 (fun i v => mtag_region incl mt a i (fst v) (snd v)) idxs vs
+  | Err e => e = E_OutOfBounds /\ exists i, In i idxs /\ forall off cnt, ~ mtag_region incl mt a i off cnt
+  | UB _ => False
+  end.
+
+(** outcome of the per-index assembly before the bound check *)
+Definition row_ok (incl : bool) (ds : list dimd) (shs : list Z) (ws : list want) (r : res (list Z * list Z)) : Prop :=
+  match r with
+  | Ok oc => region_verdict incl ds shs ws (checked_view shs oc)
+  | Err e => e = E_OutOfBounds /\ forall off cnt, ~ region_is incl ds shs ws off cnt
+  | UB _ => False
+  end.
+
+Lemma loop_row_ok {A} incl (f : Z -> A -> res (Z * Z)) l ds shs ws :
+  loop_decides incl f 0 ds shs ws l ->
+  row_ok incl ds shs ws (bind (mapMi f 0 l) (fun ocs => Ok (map fst ocs, map snd ocs))).
+Proof.
+  intro H. pose proof (loop_runs incl f l 0 ds shs ws H) as R.
+  destruct (mapMi f 0 l) as [ocs|e|u]; cbn [bind row_ok].
+  - apply results_verdict. exact R.
+  - exact R.
+  - exact R.
+Qed.
+
+(** first every index is assembled, then every result is bound-checked: the outcome is judged index by index *)
+Lemma two_phase incl mt a (F : Z -> list rowent -> res (list Z * list Z)) (rowf : Z -> list rowent) :
+  forall idxs j0,
+  (forall j i, nth_error idxs j = Some i ->
+               0 <= i < mtag_npos mt /\
+               row_ok incl (a_dims a) (a_shape a) (mtag_wants mt a i) (F (j0 + Z.of_nat j) (rowf i))) ->
+  list_verdict incl mt a idxs (bind (mapMi F j0 (map rowf idxs)) (mapM (checked_view (a_shape a)))).
+Proof.
+  induction idxs as [|i idxs IH]; intros j0 H.
+  - cbn. constructor.
+  - destruct (H O i eq_refl) as [Hi R0]. replace (j0 + Z.of_nat 0) with j0 in R0 by lia.
+    assert (H' : forall j i', nth_error idxs j = Some i' ->
+              0 <= i' < mtag_npos mt /\ row_ok incl (a_dims a) (a_shape a) (mtag_wants mt a i') (F (j0 + 1 + Z.of_nat j) (rowf i'))).
+    { intros j i' Hj. replace (j0 + 1 + Z.of_nat j) with (j0 + Z.of_nat (S j)) by lia. apply (H (S j)). exact Hj. }
+    specialize (IH (j0 + 1) H'). cbn [map mapMi].
+    destruct (F j0 (rowf i)) as [oc|e|u]; cbn [bind row_ok] in *.
+    + destruct (mapMi F (j0 + 1) (map rowf idxs)) as [ocs|e|u]; cbn [bind] in *.
+      * cbn [mapM]. destruct (checked_view (a_shape a) oc) as [[off cnt]|e|u]; cbn [bind region_verdict] in *.
+        -- destruct (mapM (checked_view (a_shape a)) ocs) as [vs|e|u]; cbn [bind list_verdict] in *.
+           ++ constructor; [split; [exact Hi|exact R0]|exact IH].
+           ++ destruct IH as (-> & i' & Hin & Hno). split; [reflexivity|]. exists i'. split; [right; exact Hin|exact Hno].
+           ++ exact IH.
+        -- destruct R0 as [-> R0]. split; [reflexivity|]. exists i. split; [left; reflexivity|].
+           intros off cnt [_ R]. exact (R0 _ _ R).
+        -- exact R0.
+      * destruct IH as (-> & i' & Hin & Hno). split; [reflexivity|]. exists i'. split; [right; exact Hin|exact Hno].
+      * exact IH.
+    + destruct R0 as [-> R0]. split; [reflexivity|]. exists i. split; [left; reflexivity|].
+      intros off cnt [_ R]. exact (R0 _ _ R).
+    + exact R0.
+Qed.
+
+Lemma zmax_list_ge l N : (zmax_list l >=? N) = true -> 0 < N -> exists i, In i l /\ N <= i.
+Proof.
+  induction l as [|x l IH]; cbn [zmax_list fold_right]; intros H HN; [lia|].
+  fold (zmax_list l) in *. destruct (Z_le_gt_dec N x) as [Hx|Hx].
+  - exists x. split; [left; reflexivity|exact Hx].
+  - destruct IH as (i & Hi & Hn); [lia|exact HN|]. exists i. split; [right; exact Hi|exact Hn].
+Qed.
+
+Lemma zmax_list_lt l N : (zmax_list l >=? N) = false -> forall i, In i l -> i < N.
+Proof.
+  induction l as [|x l IH]; cbn [zmax_list fold_right]; intros H i Hi; [contradiction|].
+  fold (zmax_list l) in *. destruct Hi as [<-|Hi]; [lia|]. apply IH; [lia|exact Hi].
+Qed.
+
+(* ------------------------------------------------------------------------------------------ *)
+(** * set-up of the row reads *)
+
+Lemma zlist_eqb_eq : forall a b, zlist_eqb a b = true -> a = b.
+Proof.
+  induction a as [|x a IH]; intros [|y b] H; cbn in H; try discriminate; [reflexivity|].
+  apply andb_true_iff in H. destruct H as [H1 H2]. apply Z.eqb_eq in H1. subst y. f_equal. apply IH. exact H2.
+Qed.
+
+Lemma mtag_setup mt n : mtag_shape_ok mt n = true -> 1 <= n ->
+  exists N tc, nd_at (n_shape (m_pos mt)) 0 = Ok N /\ N = mtag_npos mt /\ 0 <= N /\
+    mtag_temp_count (n_shape (m_pos mt)) n = Ok tc /\
+    1 <= mtag_width mt n /\ zlen (m_units mt) <= mtag_width mt n /\
+    (forall ex, m_ext mt = Some ex -> n_shape ex = n_shape (m_pos mt)) /\
+    forall nd i, n_shape nd = n_shape (m_pos mt) -> 0 <= i ->
+      nd_read nd (list_set (zrepeat 0 (zlen (n_shape (m_pos mt)))) 0 i) tc = row_of nd n i /\
+      List.length (row_of nd n i) = Z.to_nat (mtag_width mt n).
+Proof.
+  unfold mtag_shape_ok, mtag_width, mtag_npos, mtag_temp_count. intros H Hn.
+  apply andb_true_iff in H. destruct H as [H Hu]. apply andb_true_iff in H. destruct H as [Hs He].
+  assert (Hext : forall ex, m_ext mt = Some ex -> n_shape ex = n_shape (m_pos mt)).
+  { intros ex E. rewrite E in He. apply zlist_eqb_eq. exact He. }
+  destruct (n_shape (m_pos mt)) as [|N [|C [|? ?]]] eqn:Es; try discriminate.
+  - (* 1-D positions on one-dimensional data *)
+    apply andb_true_iff in Hs. destruct Hs as [Hn1 HN]. apply Z.leb_le in Hn1, HN, Hu.
+    replace (n >? 1) with false by lia. exists N, [1]. cbn [zlen List.length Z.of_nat].
+    split; [reflexivity|]. split; [reflexivity|]. split; [lia|]. split; [reflexivity|]. split; [lia|]. split; [lia|]. split; [exact Hext|].
+    intros nd i Hnd Hi. unfold row_of. rewrite Hnd. split; [|reflexivity].
+      change (list_set (zrepeat 0 (Z.pos 1)) 0 i) with [i]. apply (nd_read_1d nd N i Hnd Hi).
+  - (* N x C positions *)
+    apply andb_true_iff in Hs. destruct Hs as [HN HC]. apply Z.leb_le in HN, HC, Hu.
+    destruct (n >? 1) eqn:En.
+    + exists N, [1; C]. cbn [zlen List.length Z.of_nat].
+      split; [reflexivity|]. split; [reflexivity|]. split; [lia|]. split; [reflexivity|]. split; [lia|]. split; [lia|]. split; [exact Hext|].
+      intros nd i Hnd Hi. unfold row_of. rewrite Hnd, En. split.
+      * change (list_set (zrepeat 0 (Z.pos 2)) 0 i) with [i; 0]. apply (nd_read_2d nd N C i C Hnd Hi).
+      * rewrite map_length, ziota_length. reflexivity.
+    + exists N, [1; 1]. cbn [zlen List.length Z.of_nat].
+      split; [reflexivity|]. split; [reflexivity|]. split; [lia|]. split; [reflexivity|]. split; [lia|]. split; [lia|]. split; [exact Hext|].
+      intros nd i Hnd Hi. unfold row_of. rewrite Hnd, En. split.
+      * change (list_set (zrepeat 0 (Z.pos 2)) 0 i) with [i; 0]. apply (nd_read_2d nd N C i 1 Hnd Hi).
+      * reflexivity.
+Qed.
+
+(* ------------------------------------------------------------------------------------------ *)
+(** * the MultiTag theorem *)
+
+Definition mtag_pinned_free (B : behaviour) (mt : mtag) (a : darray) (m : RangeMatch) : Prop :=
+  pad_index_range B = true \/ m = RangeMatch_Inclusive \/ zlen (a_dims a) <= mtag_width mt (zlen (a_dims a)).
+
+Section MTag.
+  Variable B : behaviour.
+  Variable mt : mtag.
+  Variable a : darray.
+  Variable m : RangeMatch.
+  Hypothesis HC : conversions_meet_spec.
+  Hypothesis HB : mtag_repaired B.
+  Hypothesis Hdims : dims_dom (a_dims a) (a_shape a) = true.
+  Hypothesis Hn : 1 <= zlen (a_dims a).
+  Hypothesis Hshape : mtag_shape_ok mt (zlen (a_dims a)) = true.
+  Hypothesis Hpin : mtag_pinned_free B mt a m.
+
+  Let ds := a_dims a.
+  Let shs := a_shape a.
+  Let n := zlen ds.
+  Let W := mtag_width mt n.
+  Let units' := m_units mt ++ zrepeat "none"%string (n - zlen (m_units mt)).
+  Let rankP := zlen (n_shape (m_pos mt)).
+
+  (** the k-th unit of the padded units vector is what the specification takes for entry k *)
+  Lemma units'_nth k d : (k < List.length ds)%nat ->
+    nth k units' "none"%string = unit_of units' k d /\ (W <= Z.of_nat k -> nth k units' "none"%string = "none"%string).
+  Proof.
+    intro Hk. destruct (mtag_setup mt n Hshape Hn) as (N & tc & _ & _ & _ & _ & HW1 & HWu & _).
+    fold W in HW1, HWu.
+    assert (L : (k < List.length units')%nat).
+    { unfold units'. rewrite app_length, zrepeat_length. unfold n, zlen in *. lia. }
+    split.
+    - unfold unit_of. rewrite (nth_error_nth' units' "none"%string L).
+      destruct units' as [|u0 us] eqn:E; [cbn in L; lia|]. reflexivity.
+    - intro HWk. unfold units'. rewrite app_nth2 by (unfold zlen in *; lia).
+      apply nth_repeat.
+  Qed.
+
+  (** everything phase 2 and phase 3 need to know about the row of one position index *)
+  Lemma row_facts mx tc i ipos :
+    0 <= i ->
+    (List.length mx = List.length ds /\
+     forall k d sh, nth_error ds k = Some d -> nth_error shs k = Some sh -> nth_error mx k = Some (coord d 0, coord d (sh - 1))) ->
+    (forall nd i, n_shape nd = n_shape (m_pos mt) -> 0 <= i ->
+        nd_read nd (list_set (zrepeat 0 rankP) 0 i) tc = row_of nd n i /\ List.length (row_of nd n i) = Z.to_nat W) ->
+    wants_dom ds (mtag_wants mt a i) = true -> ~ In WNoSpec (mtag_wants mt a i) ->
+    let row := mtag_row B mt n mx tc rankP i in
+    List.length row = List.length ds /\
+    forall k d sh, nth_error ds k = Some d -> nth_error shs k = Some sh ->
+      exists ent w sc, nth_error row k = Some ent /\ nth_error (mtag_wants mt a i) k = Some w /\
+        spec_scaling (nth k units' "none"%string) d = Some sc /\
+        finite (e_start ent) /\ finite (e_end ent) /\
+        (exists r, indexOf_pair d m (scaled sc (e_start ent)) (scaled sc (e_end ent)) = Ok r) /\
+        (forall r, indexOf_pair d m (scaled sc (e_start ent)) (scaled sc (e_end ent)) = Ok r ->
+             decides d sh (incl_of m) w
+               (mtag_dim B rankP shs ipos (Z.of_nat k) d (nth k units' "none"%string) r ent)).
+  Proof.
+    intros Hi [Lmx Nmx] Hread Hwd Hws row.
+    destruct (dims_dom_nth _ _ Hdims) as [Lsh Ndom]. fold ds shs in Lsh, Ndom.
+    destruct (mtag_setup mt n Hshape Hn) as (N & tc' & _ & _ & _ & _ & HW1 & HWu & Hext & _). fold W in HW1, HWu.
+    (* the two rows *)
+    set (prow := row_of (m_pos mt) n i).
+    destruct (Hread (m_pos mt) i eq_refl Hi) as [Rp Lp]. fold prow in Rp, Lp.
+    set (erow := match m_ext mt with Some ex => row_of ex n i | None => zrepeat fzero (zlen prow) end).
+    assert (Le : List.length erow = Z.to_nat W).
+    { unfold erow. destruct (m_ext mt) as [ex|] eqn:Ee.
+      - apply (Hread ex i (Hext ex eq_refl) Hi).
+      - rewrite zrepeat_length. unfold zlen. lia. }
+    assert (Erow : row = row_entries B (Z.min (zlen prow) n) 0
+                     (firstn (Z.to_nat n) (prow ++ map fst (skipn (List.length prow) mx)))
+                     (firstn (Z.to_nat n) (erow ++ map snd (skipn (List.length prow) mx)))).
+    { unfold row, mtag_row. rewrite Rp. fold prow. unfold erow.
+      destruct (m_ext mt) as [ex|] eqn:Ee; [rewrite (proj1 (Hread ex i (Hext ex eq_refl) Hi))|]; reflexivity. }
+    set (sp := Z.min (zlen prow) n) in *.
+    set (os := firstn (Z.to_nat n) (prow ++ map fst (skipn (List.length prow) mx))) in *.
+    set (es := firstn (Z.to_nat n) (erow ++ map snd (skipn (List.length prow) mx))) in *.
+    assert (Lds : List.length ds = Z.to_nat n) by (unfold n, zlen; lia).
+    assert (Lskip : List.length (skipn (List.length prow) mx) = (Z.to_nat n - Z.to_nat W)%nat) by (rewrite skipn_length, Lmx, Lp; lia).
+    assert (Los : List.length os = Z.to_nat n) by (unfold os; rewrite firstn_length, app_length, map_length, Lskip, Lp; lia).
+    assert (Les : List.length es = Z.to_nat n) by (unfold es; rewrite firstn_length, app_length, map_length, Lskip, Le; lia).
+    split; [rewrite Erow, row_entries_length by lia; lia|].
+    (* the wants of the specification *)
+    assert (Ewants : mtag_wants mt a i = wants_from units' 0 ds prow
+                       (match m_ext mt with Some ex => Some (row_of ex n i) | None => None end)).
+    { unfold mtag_wants. rewrite Hshape. reflexivity. }
+    intros k d sh Hd Hs.
+    assert (Hkn : (k < Z.to_nat n)%nat) by (rewrite <- Lds; apply nth_error_Some; congruence).
+    pose proof (Ndom k d sh Hd Hs) as Hdom. pose proof (dim_dom_axis_ok d sh HC Hdom) as A.
+    destruct (units'_nth k d ltac:(lia)) as [Eu Enone].
+    assert (Hwk : exists w, nth_error (mtag_wants mt a i) k = Some w).
+    { destruct (nth_error (mtag_wants mt a i) k) eqn:E; [eexists; reflexivity|].
+      apply nth_error_None in E. rewrite Ewants, wants_from_length in E. lia. }
+    destruct Hwk as (w & Hw). exists (match nth_error row k with Some e => e | None => no_entry end), w.
+    pose proof Hw as Hw0. rewrite Ewants in Hw0.
+    destruct (nth_error_wants_from units' ds 0 prow _ k w Hw0) as (d' & Hd' & Ew). rewrite Hd in Hd'. injection Hd' as <-.
+    cbn [Nat.add] in Ew.
+    destruct (Z_lt_le_dec (Z.of_nat k) W) as [HkW|HkW].
+    - (* specified by the positions *)
+      assert (Ho : exists o, nth_error prow k = Some o) by (destruct (nth_error prow k) eqn:E; [eexists; reflexivity|apply nth_error_None in E; lia]).
+      destruct Ho as (o & Ho).
+      assert (He : exists e, nth_error erow k = Some e) by (destruct (nth_error erow k) eqn:E; [eexists; reflexivity|apply nth_error_None in E; lia]).
+      destruct He as (e & He).
+      assert (Hos : nth_error os k = Some o).
+      { unfold os. rewrite nth_error_firstn. replace (k <? Z.to_nat n)%nat with true by (symmetry; apply Nat.ltb_lt; lia).
+        rewrite nth_error_app1 by lia. exact Ho. }
+      assert (Hes : nth_error es k = Some e).
+      { unfold es. rewrite nth_error_firstn. replace (k <? Z.to_nat n)%nat with true by (symmetry; apply Nat.ltb_lt; lia).
+        rewrite nth_error_app1 by lia. exact He. }
+      assert (Hsp : (0 + Z.of_nat k <? sp) = true) by (unfold sp, zlen; rewrite Lp; lia).
+      pose proof (row_entries_nth B sp os es 0 k o e Hos Hes) as Hent. rewrite Hsp in Hent.
+      destruct HB as (HB1 & _). rewrite HB1 in Hent. cbn [negb andb orb] in Hent.
+      rewrite Erow, Hent.
+      set (eo := match m_ext mt with Some ex => nth_error (row_of ex n i) k | None => None end).
+      assert (Eeo : e = match eo with Some x => x | None => fzero end).
+      { unfold eo, erow in *. destruct (m_ext mt) as [ex|].
+        - rewrite He. reflexivity.
+        - rewrite nth_error_zrepeat in He by (unfold zlen; lia). congruence. }
+      assert (Ew' : w = want_of units' (Z.to_nat (Z.of_nat k)) d (Some o) eo).
+      { rewrite Nat2Z.id. rewrite Ew, Ho. unfold eo. destruct (m_ext mt); reflexivity. }
+      assert (Hw' : w <> WNoSpec) by (intro X; apply Hws; rewrite <- X; apply (nth_error_In _ _ Hw)).
+      pose proof (wants_dom_nth _ _ Hwd k d w Hd Hw) as Hwdk.
+      pose proof (mtag_specified_facts B rankP shs ipos (Z.of_nat k) d sh units' o eo m HB A) as SF.
+      cbv zeta in SF. rewrite <- Ew', <- Eeo in SF. rewrite Nat2Z.id in SF. rewrite <- Eu in SF.
+      destruct (SF Hw' Hwdk) as (sc & Hsc & F1 & F2 & Hr & Hdec).
+      exists sc. split; [reflexivity|]. split; [exact Hw|]. split; [exact Hsc|]. split; [exact F1|]. split; [exact F2|].
+      split; [exact Hr|exact Hdec].
+    - (* not specified: padded with (first, last coordinate) *)
+      assert (Ho : nth_error prow k = None) by (apply nth_error_None; lia).
+      rewrite Ho in Ew. cbn [want_of] in Ew. subst w.
+      assert (Hmxk := Nmx k d sh Hd Hs).
+      assert (Hos : nth_error os k = Some (coord d 0)).
+      { unfold os. rewrite nth_error_firstn. replace (k <? Z.to_nat n)%nat with true by (symmetry; apply Nat.ltb_lt; lia).
+        rewrite nth_error_app2 by lia. rewrite nth_error_map, nth_error_skipn.
+        replace (List.length prow + (k - List.length prow))%nat with k by lia. rewrite Hmxk. reflexivity. }
+      assert (Hes : nth_error es k = Some (coord d (sh - 1))).
+      { unfold es. rewrite nth_error_firstn. replace (k <? Z.to_nat n)%nat with true by (symmetry; apply Nat.ltb_lt; lia).
+        rewrite nth_error_app2 by lia. rewrite nth_error_map, nth_error_skipn. rewrite Le, <- Lp.
+        replace (List.length prow + (k - List.length prow))%nat with k by lia. rewrite Hmxk. reflexivity. }
+      assert (Hsp : (0 + Z.of_nat k <? sp) = false) by (unfold sp, zlen; rewrite Lp; lia).
+      pose proof (row_entries_nth B sp os es 0 k _ _ Hos Hes) as Hent. rewrite Hsp in Hent.
+      destruct HB as (HB1 & HBrest). rewrite HB1 in Hent. cbn [negb andb orb] in Hent.
+      rewrite Erow, Hent. rewrite (Enone HkW).
+      assert (HB' : mtag_repaired B) by (split; assumption).
+      destruct (mtag_padded_facts B rankP shs ipos k d sh m HB' A Hdom Hs) as (F1 & F2 & Hr & Hdec).
+      exists None. split; [reflexivity|]. split; [exact Hw|].
+      split; [destruct d; reflexivity|]. split; [exact F1|]. split; [exact F2|]. cbn [scaled].
+      split; [exact Hr|]. intros r Er. apply Hdec; [exact Er|].
+      destruct Hpin as [Hp|[Hp|Hp]]; [left; exact Hp|right; exact Hp|]. exfalso. fold ds n W in Hp. lia.
+  Qed.
+End MTag.
+
+Section MTagList.
+  Variable B : behaviour.
+  Variable mt : mtag.
+  Variable a : darray.
+  Variable m : RangeMatch.
+  Hypothesis HC : conversions_meet_spec.
+  Hypothesis HB : mtag_repaired B.
+  Hypothesis Hdims : dims_dom (a_dims a) (a_shape a) = true.
+  Hypothesis Hn : 1 <= zlen (a_dims a).
+  Hypothesis Hshape : mtag_shape_ok mt (zlen (a_dims a)) = true.
+  Hypothesis Hpin : mtag_pinned_free B mt a m.
+
+  (** the requests of the listed position indices that exist are inside the statement *)
+  Definition indices_ok (idxs : list Z) : Prop :=
+    forall i, In i idxs -> 0 <= i /\
+      (i < mtag_npos mt -> wants_dom (a_dims a) (mtag_wants mt a i) = true /\ ~ In WNoSpec (mtag_wants mt a i)).
+
+  Theorem mtag_list_verdict idxs : idxs <> [] -> indices_ok idxs ->
+    list_verdict (incl_of m) mt a idxs
+      (bind (getOffsetAndCount_mtag B mt a idxs m) (mapM (checked_view (a_shape a)))).
+  Proof.
+    intros Hne Hidx.
+    set (ds := a_dims a) in *. set (shs := a_shape a) in *. set (n := zlen ds) in *.
+    destruct (dims_dom_nth _ _ Hdims) as [Lsh Ndom].
+    destruct (maximumExtents_ok a Hdims) as (mx & Emx & Lmx & Nmx). fold ds shs in Lmx, Nmx.
+    destruct (mtag_setup mt n Hshape Hn) as (N & tc & EN & HNp & HN0 & Etc & HW1 & HWu & Hext & Hread).
+    unfold getOffsetAndCount_mtag. fold ds n. replace (0 <? n) with true by lia. rewrite Emx. cbn [bind].
+    destruct idxs as [|i0 rest]; [contradiction|]. clear Hne. cbv iota.
+    set (idxs := i0 :: rest) in *. assert (Eidx : idxs = i0 :: rest) by reflexivity.
+    rewrite EN. cbn [bind].
+    destruct (zmax_list idxs >=? N) eqn:Emax.
+    - (* some index is not a position *)
+      cbn [bind list_verdict]. split; [reflexivity|].
+      assert (Hex : exists i, In i idxs /\ N <= i).
+      { destruct (Z.eq_dec N 0) as [->|HNz].
+        - exists i0. split; [rewrite Eidx; left; reflexivity|]. apply (Hidx i0). rewrite Eidx. left. reflexivity.
+        - apply zmax_list_ge; [exact Emax|lia]. }
+      destruct Hex as (i & Hi & HiN). exists i. split; [exact Hi|]. intros off cnt [Hr _]. lia.
+    - pose proof (zmax_list_lt idxs N Emax) as Hlt.
+      replace (match m_ext mt with
+               | Some ex => bind (nd_at (n_shape ex) 0) (fun en => Ok (zmax_list idxs >=? en))
+               | None => Ok false end) with (@Ok bool false)
+        by (destruct (m_ext mt) as [ex|] eqn:Ee; [rewrite (Hext ex eq_refl), EN; cbn [bind]; rewrite Emax|]; reflexivity).
+      cbn [bind]. rewrite Etc. cbn [bind].
+      set (rankP := zlen (n_shape (m_pos mt))).
+      set (units' := m_units mt ++ zrepeat "none"%string (n - zlen (m_units mt))).
+      set (rowf := mtag_row B mt n mx tc rankP).
+      (* facts about every listed row *)
+      assert (RF : forall i ipos, In i idxs ->
+                let row := rowf i in
+                List.length row = List.length ds /\
+                forall k d sh, nth_error ds k = Some d -> nth_error shs k = Some sh ->
+                  exists ent w sc, nth_error row k = Some ent /\ nth_error (mtag_wants mt a i) k = Some w /\
+                    spec_scaling (nth k units' "none"%string) d = Some sc /\
+                    finite (e_start ent) /\ finite (e_end ent) /\
+                    (exists r, indexOf_pair d m (scaled sc (e_start ent)) (scaled sc (e_end ent)) = Ok r) /\
+                    (forall r, indexOf_pair d m (scaled sc (e_start ent)) (scaled sc (e_end ent)) = Ok r ->
+                         decides d sh (incl_of m) w
+                           (mtag_dim B rankP shs ipos (Z.of_nat k) d (nth k units' "none"%string) r ent))).
+      { intros i ipos Hi. destruct (Hidx i Hi) as [Hi0 Hiw]. destruct (Hiw ltac:(rewrite <- HNp; apply Hlt; exact Hi)) as [Hwd Hws].
+        apply (row_facts B mt a m HC HB Hdims Hn Hshape Hpin mx tc i ipos Hi0 (conj Lmx Nmx) Hread Hwd Hws). }
+      (* phase 2 *)
+      set (sc_of := fun k d => match spec_scaling (nth k units' "none"%string) d with Some sc => sc | None => None end).
+      assert (P2 : exists DI, mtag_phase2 ds units' m (map rowf idxs) = Ok DI /\
+                forall k d j i, nth_error ds k = Some d -> nth_error idxs j = Some i ->
+                  let ent := nth k (rowf i) no_entry in
+                  indexOf_pair d m (scaled (sc_of k d) (e_start ent)) (scaled (sc_of k d) (e_end ent))
+                  = Ok (nth j (nth k DI []) None)).
+      { unfold mtag_phase2.
+        set (f := fun (k : Z) (d : dimd) =>
+                    let col := column (map rowf idxs) (Z.to_nat k) no_entry in
+                    let unit := nth (Z.to_nat k) units' "none"%string in
+                    positionToIndex_vec (map e_start col) (map e_end col) (map (fun _ => unit) col) m d).
+        assert (Step : forall k d, nth_error ds k = Some d ->
+                  exists rs, f (0 + Z.of_nat k) d = Ok rs /\
+                    forall j i, nth_error idxs j = Some i ->
+                      let ent := nth k (rowf i) no_entry in
+                      indexOf_pair d m (scaled (sc_of k d) (e_start ent)) (scaled (sc_of k d) (e_end ent)) = Ok (nth j rs None)).
+        { intros k d Hd.
+          assert (Hsh : exists sh, nth_error shs k = Some sh).
+          { destruct (nth_error shs k) eqn:E; [eexists; reflexivity|]. apply nth_error_None in E.
+            assert (k < List.length ds)%nat by (apply nth_error_Some; congruence). lia. }
+          destruct Hsh as (sh & Hsh).
+          unfold f. cbn [Z.add]. rewrite Nat2Z.id. cbv zeta.
+          set (col := column (map rowf idxs) k no_entry).
+          assert (Hcol : forall en, In en col -> exists i, In i idxs /\ en = nth k (rowf i) no_entry).
+          { intros en Hen. unfold col, column in Hen. rewrite map_map in Hen. apply in_map_iff in Hen.
+            destruct Hen as (i & <- & Hi). exists i. split; [exact Hi|reflexivity]. }
+          assert (Hsc : spec_scaling (nth k units' "none"%string) d = Some (sc_of k d)).
+          { destruct (RF i0 0 ltac:(rewrite Eidx; left; reflexivity)) as [_ RFk].
+            destruct (RFk k d sh Hd Hsh) as (ent & w & sc & _ & _ & Hsc & _). unfold sc_of. rewrite Hsc. reflexivity. }
+          assert (Hent : forall i, In i idxs -> let ent := nth k (rowf i) no_entry in
+                    finite (e_start ent) /\ finite (e_end ent) /\
+                    exists r, indexOf_pair d m (scaled (sc_of k d) (e_start ent)) (scaled (sc_of k d) (e_end ent)) = Ok r).
+          { intros i Hi. destruct (RF i 0 Hi) as [_ RFk].
+            destruct (RFk k d sh Hd Hsh) as (ent & w & sc & Hrow & _ & Hsc' & F1 & F2 & Hr & _).
+            rewrite Hsc in Hsc'. injection Hsc' as <-. cbv zeta. rewrite (nth_error_nth _ _ _ Hrow). repeat split; assumption. }
+          rewrite (pti_vec_column col _ m d (sc_of k d) Hsc)
+            by (intros en Hen; destruct (Hcol en Hen) as (i & Hi & ->); destruct (Hent i Hi) as (F1 & F2 & _); split; assumption).
+          destruct (mapM_all_ok (fun en => indexOf_pair d m (scaled (sc_of k d) (e_start en)) (scaled (sc_of k d) (e_end en))) col)
+            as (rs & Ers & Hrs).
+          { intros en Hen. destruct (Hcol en Hen) as (i & Hi & ->). apply (Hent i Hi). }
+          exists rs. split; [exact Ers|]. intros j i Hj. cbv zeta.
+          assert (Hcj : nth_error col j = Some (nth k (rowf i) no_entry)).
+          { unfold col, column. rewrite map_map. apply (map_nth_error (fun x => nth k (rowf x) no_entry) j idxs Hj). }
+          destruct (Hrs j _ Hcj) as (r & Hr & Er). rewrite (nth_error_nth _ _ _ Hr). exact Er. }
+        destruct (mapMi_cases f E_OutOfBounds ds 0) as [(DI & E & LDI & HDI)|(E & k & d & Hk & He)].
+        - intros k d Hk. left. destruct (Step k d Hk) as (rs & -> & _). eexists. reflexivity.
+        - exists DI. split; [exact E|]. intros k d j i Hd Hj.
+          destruct (HDI k d Hd) as (b & Hb & Hf). destruct (Step k d Hd) as (rs & Hf' & Hrs).
+          rewrite Hf in Hf'. injection Hf' as ->. rewrite (nth_error_nth _ _ _ Hb). apply (Hrs j i Hj).
+        - exfalso. destruct (Step k d Hk) as (rs & Hf & _). rewrite Hf in He. discriminate. }
+      destruct P2 as (DI & EDI & HDI). fold units'. fold rowf. rewrite EDI. cbn [bind].
+      (* phase 3 and the bound checks *)
+      unfold mtag_phase3. apply two_phase.
+      intros j i Hj. assert (Hi : In i idxs) by (apply (nth_error_In _ _ Hj)).
+      split; [split; [apply (Hidx i Hi)|rewrite <- HNp; apply Hlt; exact Hi]|].
+      apply loop_row_ok. destruct (RF i (0 + Z.of_nat j) Hi) as [Lrow RFk].
+      apply loop_decides_build.
+      + exact Lsh.
+      + unfold mtag_wants. fold ds n. rewrite Hshape. cbn [negb]. rewrite wants_from_length. reflexivity.
+      + reflexivity.
+      + intros k d sh w d' Hd Hs Hw Hd'. change (nth_error ds k = Some d) in Hd. assert (d' = d) as -> by congruence. cbn [Z.add].
+        change (nth_error ds k = Some d) in Hd. change (nth_error shs k = Some sh) in Hs.
+        pose proof (Ndom k d sh Hd Hs) as Hdom. destruct (dim_dom_bounds d sh Hdom) as [[H1 H2] H3].
+        split; [|lia].
+        destruct (RFk k d sh Hd Hs) as (ent & w' & sc & Hrow & Hw' & Hsc & _ & _ & _ & Hdec).
+        rewrite Hw in Hw'. injection Hw' as <-.
+        rewrite !Nat2Z.id. rewrite (nth_error_nth _ _ _ Hrow). apply Hdec.
+        pose proof (HDI k d j i Hd Hj) as P. cbv zeta in P. rewrite (nth_error_nth _ _ _ Hrow) in P.
+        unfold sc_of in P. rewrite Hsc in P. exact P.
+  Qed.
+End MTagList.
